@@ -46,6 +46,8 @@ func checkNoServerTimeouts(c *report.Ctx) {
 		if !strings.HasPrefix(an.FuncName(f), "M/cmd/aws-lambda-rie.") {
 			continue
 		}
+		// (the package-level http.ListenAndServe builds a server with an address and a handler and nothing else)
+		fn2 += len(an.CallsTo(f, "net/http.ListenAndServe"))
 		for _, st := range an.Stores(f, "net/http.Server", "") {
 			fr, _ := an.AsField(st.Addr)
 			fn2++
@@ -57,7 +59,7 @@ func checkNoServerTimeouts(c *report.Ctx) {
 			}
 		}
 	}
-	c.Check("R-CONST", "M/cmd/aws-lambda-rie.Server/no-answer-deadline", "the invoke endpoint's server sets no write or whole-request deadline: the outcome of a timed-out invocation is written after the function timeout plus the reset allowance", len(fset) == 0 && fn2 >= 1, fpos2, fn2, "http.Server fields set: %d; deadlines set: %v", fn2, fset)
+	c.Check("R-CONST", "M/cmd/aws-lambda-rie.Server/no-answer-deadline", "the invoke endpoint's server sets no write or whole-request deadline: the outcome of a timed-out invocation is written after the function timeout plus the reset allowance", len(fset) == 0 && fn2 >= 1, fpos2, fn2, "http.Server fields set (or plain ListenAndServe calls): %d; deadlines set: %v", fn2, fset)
 	c.Check("R-CONST", "L/rapi.Server/no-connection-deadlines", "the Runtime/Extensions API server sets no read/write timeouts: a party parked in /next for any length of time still receives its event", len(set) == 0 && n >= 1, pos, n, "http.Server fields set: %d; timeouts set: %v", n, set)
 }
 
